@@ -607,6 +607,11 @@ func (s *c02State) runCase(m *types.Block, label string, honest bool, probe type
 			time.Sleep(20 * time.Millisecond)
 		}
 	}
+	if int64(m.Time()) > time.Now().Unix()-100000 {
+		// a near-clock block must not be confirmed by this node (it would become stable and drag the
+		// chain's time to the wall clock): insert it as an observer
+		deputynode.SetSelfNodeKey(detKey("c02-observer"))
+	}
 	ex := s.reexec(m)
 	now := time.Now().Unix()
 	facts := s.facts(m, now, ex)
@@ -1220,16 +1225,28 @@ func c02Campaign(c *Ctx) {
 	slot := uint32(w.Timeout / 1000)
 
 	cases := 0
+	lastHonest := n.BC.CurrentBlock()
 	mutCursor := 0
 	round := 0
 	for cases < c.N {
 		round++
-		head := n.BC.CurrentBlock()
+		// build on the last HONEST block, not on CurrentBlock(): an accepted near-clock mutant (Time:now+1,
+		// valid when empty and signed in turn) may be the engine's head for a while, and every block on top
+		// of it would be "in the future". Honest blocks carry confirms, so the stable pointer follows them
+		// and prunes such siblings.
+		head := lastHonest
+		if st := n.BC.StableBlock(); st.Height() >= head.Height() && st.Hash() != head.Hash() {
+			head = st // a valid variant (confirmed by the node itself) became stable first: go on from there
+			lastHonest = st
+			c.Count("round:rebased-on-stable")
+		}
 		parent := head
+		forkRound := false
 		// sometimes fork from the head's parent
 		if head.Height() > 1 && c.Rnd.Intn(6) == 0 {
 			if p, err := n.DB.GetBlockByHash(head.ParentHash()); err == nil && p.Height() >= n.BC.StableBlock().Height() {
 				parent = p
+				forkRound = true
 				c.Count("round:fork")
 			}
 		}
@@ -1369,6 +1386,9 @@ func c02Campaign(c *Ctx) {
 		if v == "ok" {
 			s.chainTxs = append(s.chainTxs, blk.Txs...)
 			c.Count("honest:accepted")
+			if !forkRound {
+				lastHonest = blk
+			}
 			// a second delivery is ignored
 			if c.Rnd.Intn(4) == 0 {
 				s.runCase(blk, "honest-again", true, probe)
